@@ -773,14 +773,14 @@ func (z *Decimal) FMA(x, y, u *Decimal) *Decimal {
 		z.prec = umax32(umax32(x.prec, y.prec), u.prec)
 	}
 
-	if u.form == zero {
+	if u.form == zero && x.form != zero && y.form != zero {
+		// non-zero product: the sign of u does not matter
 		return z.Mul(x, y)
 	}
-	// 0 < |u| <= Inf
 
-	// avoid trashing z if u == z
+	// avoid trashing z if u == z (u may have no mantissa to alias)
 	z0 := z
-	if alias(z.mant, u.mant) {
+	if z == u || alias(z.mant, u.mant) {
 		z0 = new(Decimal)
 		z0.mode = z.mode
 		z0.prec = z.prec
@@ -790,6 +790,10 @@ func (z *Decimal) FMA(x, y, u *Decimal) *Decimal {
 
 	if x.form == finite && y.form == finite {
 		// x * y (common case)
+		if u.form == inf {
+			// finite + ±Inf, whatever the magnitude of the product
+			return z.Set(u)
+		}
 		// prevent rounding in umul
 		prec := z0.prec
 		z0.prec = MaxPrec
@@ -819,6 +823,17 @@ func (z *Decimal) FMA(x, y, u *Decimal) *Decimal {
 
 	// ±0 * y + u
 	// x * ±0 + u
+	if u.form == zero {
+		// ±0 + ±0: sign of an exact zero sum as in Add
+		neg := z0.neg
+		if neg != u.neg {
+			neg = z.mode == ToNegativeInf
+		}
+		z.acc = Exact
+		z.form = zero
+		z.neg = neg
+		return z
+	}
 	return z.Set(u)
 }
 
